@@ -13,7 +13,7 @@ import subprocess
 import tempfile
 import time
 
-ROOT = '/verif'
+ROOT = os.environ.get('VERIF_ROOT') or '/verif'
 REPO = os.environ.get('VERIF_REPO', '/repo')
 TARGET = os.path.join(ROOT, '.cache', 'kani-target')
 
